@@ -461,8 +461,14 @@ func init() {
 			c07Fillers[3] = func(i int) byte { return byte(int64(i)*131 + c.Seed*89 + 0x3c) }
 			var fam int64
 			maxPos := 4
+			maxL := 40
+			if c.Thorough() {
+				maxL = 200
+				c07SlackTrail = append(append(append([]int{}, c07Slacks...), 5, 6, 7, 16, 20, 24, 128), 1, 12, 20, 32)
+				c07Slacks = c07SlackTrail[:len(c07Slacks)+7]
+			}
 			for gi, g := range c07Getters {
-				for l := 0; l <= 40; l++ {
+				for l := 0; l <= maxL; l++ {
 					for class := 0; class < 4; class++ {
 						fam++
 						if !c.Mine(fam) {
@@ -527,7 +533,7 @@ func init() {
 			}
 			c07TypeHi = 0
 			c.Extra("getters", len(c07Getters))
-			c.Extra("value_lengths", "0..40")
+			c.Extra("value_lengths", fmt.Sprintf("0..%d", maxL))
 		},
 		Replay: func(c *Ctx, p json.RawMessage) {
 			var k c07Case
